@@ -15,7 +15,7 @@ RULE = ("streams = concatenations of 1-6 framed messages of all seven types (pay
         "variants (wrong magic at message k, length field > 32 MiB / == 32 MiB at message k, length one more / one less than the "
         "payload, trailing partial frame, messages exactly AT the limit -- the real 32 MiB one and small patched limits); fragmentations: ALL 2- and 3-way cuts of short streams (exhaustive) and Hypothesis-"
         "drawn many-way cuts (chunks 1..1024) of long streams; the same through a simulated node's full event path "
-        "(recv(1024), drawn arrival sizes). Oracle: the sequence of (header bytes, message bytes) handed on is identical for "
+        "(the node reads with its own recv size; drawn arrival sizes; greeting followed by 1-4, 25-70 or 1100-2200 messages). Oracle: the sequence of (header bytes, message bytes) handed on is identical for "
         "every fragmentation and equals the reference framer's parse; for a corrupted stream every message before the "
         "corruption is delivered exactly once, none after, and the refusal is raised by exactly the chunk that completes the "
         "offending 4-byte field (connection dropped there on the node path). non-trivial = fragmentation of a stream with >= 2 "
@@ -279,9 +279,19 @@ def run_node(res, tier, seed):
     try:
         @hypothesis.seed(env.subseed(seed, ID, "node"))
         @settings(max_examples=n, deadline=None, database=None, suppress_health_check=list(hypothesis.HealthCheck), phases=[hypothesis.Phase.generate])
-        @given(st.lists(st.integers(0, 5), min_size=1, max_size=4), st.sampled_from(KINDS), st.integers(0, 4), st.randoms(use_true_random=True))
-        def prop(idx, kind, k, rnd):
+        @given(st.lists(st.integers(0, 5), min_size=1, max_size=4), st.sampled_from(KINDS), st.integers(0, 4), st.randoms(use_true_random=True),
+               st.sampled_from(["few", "few", "few", "kilobytes", "kilobytes", "burst"]))
+        def prop(idx, kind, k, rnd, size):
             sm = small_messages(M)
+            if size == "kilobytes":          # the greeting is followed directly by more than one read's worth of messages
+                idx = [rnd.randrange(6) for _ in range(rnd.randrange(25, 70))]
+                k = rnd.randrange(len(idx))
+            elif size == "burst":            # hundreds of tiny messages are in the socket when the node gets to read
+                idx = [rnd.choice([0, 2, 2, 4]) for _ in range(rnd.randrange(1100, 2200))]
+                k = len(idx) - 1 - rnd.randrange(50)
+                if rnd.random() < 0.5:
+                    kind = "none"
+            res.count("node_stream_size:" + size)
             outcomes = []
             for trial in range(3):
                 net = simnet.Net()
@@ -298,11 +308,11 @@ def run_node(res, tier, seed):
                 got = [(h, m) for (_n, h, m) in log]
                 outcomes.append((got, w.connected))
                 if net.escaped:
-                    res.fail("escape", "exception-escaped-handler", "exception escaped the event handler: %s" % net.escaped[0][1], {"node_stream": stream.hex()})
+                    res.fail("escape", "exception-escaped-handler", "exception escaped the event handler: %s" % net.escaped[0][1], {"node_stream": stream.hex()[:4000], "node_stream_bytes": len(stream)})
                 if got != exp:
-                    res.fail("framing", "node-path-messages-differ", "node path: %d messages handled, reference %d (kind %s)" % (len(got), len(exp), kind), {"node_stream": stream.hex()})
+                    res.fail("framing", "node-path-messages-differ", "node path: %d messages handled, reference %d (kind %s)" % (len(got), len(exp), kind), {"node_stream": stream.hex()[:4000], "node_stream_bytes": len(stream)})
                 if (trig is not None) == w.connected:
-                    res.fail("framing", "node-path-connection-state", "node path: stream kind %s, refusal expected=%s but connection open=%s" % (kind, trig is not None, w.connected), {"node_stream": stream.hex()})
+                    res.fail("framing", "node-path-connection-state", "node path: stream kind %s, refusal expected=%s but connection open=%s" % (kind, trig is not None, w.connected), {"node_stream": stream.hex()[:4000], "node_stream_bytes": len(stream)})
                 res.nontrivial(env.digest([stream.hex(), trial, cnt]))
             if any(o != outcomes[0] for o in outcomes):
                 res.fail("framing", "node-path-fragmentation-dependent", "node path: outcome differs between fragmentations", {"node_stream": "see seed"})
@@ -311,7 +321,7 @@ def run_node(res, tier, seed):
         prop()
     finally:
         RP.ConnectedRemotePeer.handle_message_received = orig
-    res.sample({"node_path": "greeting + 1-4 small messages, 3 fragmentations each (unfragmented + 2 drawn)"})
+    res.sample({"node_path": "greeting + 1-4 / 25-70 / 1100-2200 small messages, 3 fragmentations each (everything in the socket at once + 2 drawn arrival schedules); the node reads with its own recv size"})
     return res
 
 
